@@ -415,6 +415,10 @@ func (ps *sparser) primary() *SExpr {
 	t := ps.next()
 	switch t.kind {
 	case "id":
+		if (t.text == "forall" || t.text == "exists") && ps.peek().kind == "id" {
+			ps.p--
+			return ps.expr()
+		}
 		return &SExpr{Kind: SIdent, Name: t.text, Pos: t.pos}
 	case "int":
 		return &SExpr{Kind: SInt, Name: t.text, Pos: t.pos}
